@@ -30,10 +30,13 @@ type Config struct {
 	// joinsc / joincc: the slice handed to the emitted function (the sequence sent on the outer channel), as
 	// indices into Items/Caps — the SAME channel may occur at several positions ([0 1 0]).  nil = every channel
 	// once, in order.  The emitted code listens once to a channel that is given twice (K/JoinWG: `seen`).
-	Slice []int    `json:"slice,omitempty"`
-	N     int      `json:"n,omitempty"`    // do: number of functions
-	Errs  []int    `json:"errs,omitempty"` // do: 0 = nil error, otherwise the error's id
-	Pairs [][2]int `json:"pairs,omitempty"`
+	Slice []int `json:"slice,omitempty"`
+	// joinsc: the caller overwrites every element of its list right after the call returned (it reuses the slice).
+	// The join must have read the list before it returned (F103, witness class joinsc-list-read-after-return).
+	Mutate bool     `json:"mutate_list,omitempty"`
+	N      int      `json:"n,omitempty"`    // do: number of functions
+	Errs   []int    `json:"errs,omitempty"` // do: 0 = nil error, otherwise the error's id
+	Pairs  [][2]int `json:"pairs,omitempty"`
 }
 
 // F is the user function of the fmap scenarios (the Lean driver uses the same one).
@@ -44,7 +47,7 @@ func DoVal(i int) int { return 10 + i }
 
 // SelArity is the number of channel arguments of a select-form wrapper ("JoinV5" ↦ 5).
 func SelArity(variant string) int {
-	n, _ := strconv.Atoi(strings.TrimPrefix(variant, "JoinV"))
+	n, _ := strconv.Atoi(strings.TrimSuffix(strings.TrimPrefix(variant, "JoinV"), "e"))
 	return n
 }
 
@@ -71,6 +74,28 @@ func Item(i, j int) int { return (i+1)*100 + j }
 
 // InputOf recovers the input an item came from.
 func InputOf(v int) int { return v/100 - 1 }
+
+// withSpecials replaces items of an interface-typed configuration by the special items: the nil interface value
+// (NilItem) and a typed-nil pointer in a non-nil interface (NilPtrItem).  pick(i, j) in 0..5: 0,1 ↦ nil, 2 ↦ typed nil.
+func withSpecials(c Config, pick func(i, j int) int) Config {
+	if !IsIface(c.Variant) {
+		return c
+	}
+	its := make([][]int, len(c.Items))
+	for i := range c.Items {
+		its[i] = append([]int{}, c.Items[i]...)
+		for j := range its[i] {
+			switch pick(i, j) {
+			case 0, 1:
+				its[i][j] = NilItem
+			case 2:
+				its[i][j] = NilPtrItem
+			}
+		}
+	}
+	c.Items = its
+	return c
+}
 
 func mkItems(counts []int) [][]int {
 	out := make([][]int, len(counts))
@@ -141,13 +166,13 @@ func (c Config) Key() string {
 
 // Variants of each system in the fixed package.
 var Variants = map[string][]string{
-	"fmap":     {"FmapChan"},
+	"fmap":     {"FmapChan", "FmapA"},
 	"fmapch":   {"FmapCh"},
-	"dup":      {"DupR", "DupB"},
-	"joincc":   {"JoinCC", "JoinCCb"},
-	"joinsc":   {"JoinSC", "JoinSCb"},
-	"joinsel":  {"JoinV2", "JoinV3", "JoinV5", "JoinV6"},
-	"pipeline": {"Pipeline"},
+	"dup":      {"DupR", "DupB", "DupA"},
+	"joincc":   {"JoinCC", "JoinCCb", "JoinCCbb", "JoinCCe"},
+	"joinsc":   {"JoinSC", "JoinSCb", "JoinSCe"},
+	"joinsel":  {"JoinV2", "JoinV3", "JoinV5", "JoinV6", "JoinV2e"},
+	"pipeline": {"Pipeline", "PipelineB", "PipelineE"},
 	"do":       {"Do2", "Do3", "Do4", "Do2b", "Do3b", "Do3m"},
 }
 
@@ -213,7 +238,7 @@ func RandomConfig(sys string, r *rand.Rand, maxIn, maxItems, maxCap int) Config 
 	if sys == "fmapch" {
 		c = FmapChItems(c, r.Intn(1<<len(c.Items[0])))
 	}
-	return c
+	return withSpecials(c, func(i, j int) int { return r.Intn(6) })
 }
 
 // SmallConfigs enumerates every configuration of the system with exactly `inputs` inputs (fmap and
@@ -246,6 +271,7 @@ func SmallConfigs(sys string, inputs, items, maxCap int) []Config {
 			if i == n {
 				for _, oc := range ocaps {
 					c := Config{Sys: sys, Variant: variant, OCap: oc, Caps: append([]int{}, caps...), Items: mkItems(counts)}
+					c = withSpecials(c, func(i, j int) int { return (2*i + 3*j) % 4 }) // interface streams: nil, ordinary, typed nil, …
 					out = append(out, c)
 					if sys == "joinsc" && n == 0 { // zero inputs both as an empty slice and as a nil slice
 						c.NilSlice = true
@@ -433,4 +459,24 @@ func (c Config) Duplicated(i int) bool {
 		}
 	}
 	return n > 1
+}
+
+// MutateConfigs: slice-of-channels Join whose caller reuses (overwrites) the list right after the call.
+func MutateConfigs() []Config {
+	var out []Config
+	for _, variant := range Variants["joinsc"] {
+		for n := 1; n <= 3; n++ {
+			for k := 1; k <= 2; k++ {
+				for cp := 0; cp <= 1; cp++ {
+					counts, caps := make([]int, n), make([]int, n)
+					for i := range counts {
+						counts[i], caps[i] = k, cp
+					}
+					c := Config{Sys: "joinsc", Variant: variant, Caps: caps, Items: mkItems(counts), Mutate: true}
+					out = append(out, withSpecials(c, func(i, j int) int { return (2*i + 3*j) % 4 }))
+				}
+			}
+		}
+	}
+	return out
 }
